@@ -110,7 +110,7 @@ def check(ctx):
                 okloops += 1
             else:
                 ctx.finding(f'C19:LOOP|{f}|bb{head}', 'F7 loops are iterator driven', body['span'], f'{f}: loop at bb{head} is not driven by a finite iterator: {why}')
-    ctx.rule('C19-D2 loops of local::* driven by Iterator::next', nloops, okloops, floor=4, sample={'loops': nloops})
+    ctx.rule('C19-D2 loops of local::* driven by Iterator::next', nloops, okloops, floor=0, sample={'loops': nloops})      # a statement about every loop: no loop, nothing to show
     # recursion: (a) the functions of local:: do not call each other in a cycle; (b) the one static cycle that leaves the module
     # (rule_to_local_timestamp -> DateTime::year -> Offset::resolve -> to_local_time_type) is never taken: on every analysed
     # path no function is entered while it is already on the call stack (the offset of that DateTime is Fixed(0))
